@@ -276,8 +276,9 @@ class ModelObj:
 class SList:
     """symbolic list: length `n` (z3 Int >= 0) and element constructor elem(i); `unordered` when it derives from
     list(set(...)) / modeling_obj_containers (iteration order unspecified, duplicate-free)"""
-    def __init__(self, n, elem, name, unordered=False):
+    def __init__(self, n, elem, name, unordered=False, guard=None):
         self.n, self.elem, self.name, self.unordered = n, elem, name, unordered
+        self.guard = guard     # filtered comprehension: iteration i only happens when guard(i) holds
 
 
 class SRange:
@@ -360,3 +361,9 @@ class IntSet:
     """a python list of ints used only for membership tests: abstract predicate"""
     def __init__(self, pred, name="set"):
         self.pred, self.name = pred, name
+
+
+class KDict:
+    """python dict keyed by the elements of one symbolic list (key = element index k): base(k) plus an overlay of writes"""
+    def __init__(self, keys, base):
+        self.keys, self.base, self.overlay = keys, base, []
